@@ -3,7 +3,9 @@
 from __future__ import annotations
 
 import ast
+import re
 
+from ..alpha import Loc, afind, amatch
 from ..const import UNKNOWN, Folder
 from ..flow import Slicer, flat_guards, guards, parent_map
 from ..model import FuncInfo, Model, dotted, norm, walk_no_nested
@@ -421,14 +423,16 @@ def _r4_refusals(model: Model, run: Run, folder: Folder) -> None:
     um = model.func(OPEN + '.unpack_message')
     run.analysed(um)
     pairs = []
+    uml = Loc(model, um)
     for n in walk_no_nested(um.node):
         if isinstance(n, ast.Raise) and isinstance(n.exc, ast.Call) and len(n.exc.args) >= 2:
             c = folder.fold(n.exc.args[0], um.module, um.cls)
             s = folder.fold(n.exc.args[1], um.module, um.cls)
-            g = ' && '.join(norm(t) for t, pol in flat_guards(um.node, n) if pol)
+            g = ' && '.join(uml.expand(t) for t, pol in flat_guards(um.node, n) if pol)
             pairs.append(((c, s), g))
-    okv = any(p == (2, 1) and 'version != Version.BGP_4' in g for p, g in pairs)
-    okl = any(p == (1, 2) and 'len(data) <' in g for p, g in pairs)
+    dp = um.node.args.args[1].arg if len(um.node.args.args) > 1 else '?'
+    okv = any(p == (2, 1) and ('%s[0] != Version.BGP_4' % dp) in g for p, g in pairs)
+    okl = any(p == (1, 2) and ('len(%s) <' % dp) in g for p, g in pairs)
     v4 = folder.resolve_dotted('Version.BGP_4', um.module, um.cls, {})
     run.check(okv and v4 == 4, um.qualname, 'version != 4 -> 2/1', um.loc(), 'unsupported version is 2/1')
     mb = folder.class_attr(OPEN, 'MINIMUM_BODY_SIZE')
@@ -441,51 +445,102 @@ def _r5_codec(model: Model, run: Run, folder: Folder) -> None:
     run.analysed(pk)
     run.analysed(un)
     mod = pk.module
-    # encoder threshold
+    # encoder: names do not matter, the shapes do
+    rets = [r for r in walk_no_nested(pk.node) if isinstance(r, ast.Return) and r.value is not None]
+    std = [(r, b) for r in rets for b in [amatch('bytes([len(V_p)]) + V_p', r.value)] if b is not None]
+    run.check(len(std) == 1, pk.qualname, 'standard form = [len] + parameters', pk.loc(), 'one length octet precedes the parameters')
     thr = None
-    for n in walk_no_nested(pk.node):
-        if isinstance(n, ast.If) and isinstance(n.test, ast.Compare) and 'len(parameters)' in norm(n.test.left):
-            thr = (type(n.test.ops[0]).__name__, folder.fold(n.test.comparators[0], mod, pk.cls), n)
-    run.check(thr is not None and thr[0] == 'Lt' and thr[1] == 255, pk.qualname, 'standard form iff len(parameters) < %s' % (thr[1] if thr else None), pk.loc(thr[2]) if thr else pk.loc(), 'the one-octet length holds at most 254 once 255 is the RFC 9072 marker')
-    # standard form return: bytes([len(parameters)]) + parameters
-    rets = [r for r in walk_no_nested(pk.node) if isinstance(r, ast.Return)]
-    std = next((r for r in rets if 'bytes([len(parameters)]) + parameters' == norm(r.value)), None)
-    run.check(std is not None, pk.qualname, 'standard form = [len] + parameters', pk.loc(), 'one length octet precedes the parameters')
-    ext = next((r for r in rets if isinstance(r.value, ast.BinOp) and isinstance(r.value.left, ast.Call) and 'pack' in norm(r.value.left.func)), None)
+    if std:
+        for t, pol in flat_guards(pk.node, std[0][0]):
+            b = amatch('len(V_p) < E_max', t, {'V_p': std[0][1]['V_p']})
+            if b is not None and pol and isinstance(t, ast.Compare):
+                thr = ('Lt', folder.fold(t.comparators[0], mod, pk.cls), t)
+    run.check(thr is not None and thr[1] == 255, pk.qualname, 'standard form iff len(parameters) < %s' % (thr[1] if thr else None), pk.loc(thr[2]) if thr else pk.loc(), 'the one-octet length holds at most 254 once 255 is the RFC 9072 marker')
+    ext = [(r, b) for r in rets for b in [amatch('pack(E_fmt, E_a, E_b, len(V_q)) + V_q', r.value)] if b is not None]
     okx = False
-    if ext is not None:
-        c = ext.value.left
-        fmt = folder.fold(c.args[0], mod, pk.cls)
-        m1 = folder.fold(c.args[1], mod, pk.cls)
-        m2 = folder.fold(c.args[2], mod, pk.cls)
-        okx = fmt == '!BBH' and m1 == 255 and m2 == 255 and 'len(parameters)' in norm(c.args[3])
-    run.check(okx, pk.qualname, 'extended form = pack(!BBH, 255, 255, len) + parameters', pk.loc(ext) if ext is not None else pk.loc(), 'RFC 9072 2: 255, 255, two-octet length')
-    # parameter headers: standard bytes([2, len]) ; extended pack('!BH', 2, len)
-    hdrs = []
-    for n in sorted((x for x in walk_no_nested(pk.node) if isinstance(x, ast.AugAssign)), key=lambda x: x.lineno):
-        if dotted(n.target) == 'parameters':
-            hdrs.append(norm(n.value))
-    run.check(len(hdrs) == 2 and hdrs[0].startswith('bytes([2, len(encoded)])') and hdrs[1].startswith("pack('!BH', 2, len(encoded))"), pk.qualname, 'parameter headers %s' % hdrs, pk.loc(), 'type 2 (capabilities) with a 1-octet then a 2-octet length')
+    if len(ext) == 1:
+        c = ext[0][0].value.left
+        okx = folder.fold(c.args[0], mod, pk.cls) == '!BBH' and folder.fold(c.args[1], mod, pk.cls) == 255 and folder.fold(c.args[2], mod, pk.cls) == 255
+    run.check(okx, pk.qualname, 'extended form = pack(!BBH, 255, 255, len) + parameters', pk.loc(ext[0][0]) if ext else pk.loc(), 'RFC 9072 2: 255, 255, two-octet length')
+    # parameter headers: standard bytes([2, len]) ; extended pack('!BH', 2, len)  (2 = Parameter.CAPABILITIES)
+    h1 = h2 = 0
+    for n in walk_no_nested(pk.node):
+        if isinstance(n, ast.AugAssign) and isinstance(n.op, ast.Add) and isinstance(n.target, ast.Name):
+            for pat, which in (('bytes([E_t, len(V_e)]) + V_e', 1), ("pack('!BH', E_t, len(V_e)) + V_e", 2)):
+                b = amatch(pat, n.value)
+                if b is not None:
+                    tcode = folder.fold(ast.parse(str(b['E_t']), mode='eval').body, mod, pk.cls)
+                    if tcode == 2:
+                        if which == 1 and std and n.target.id == std[0][1]['V_p']:
+                            h1 += 1
+                        if which == 2 and ext and n.target.id == ext[0][1]['V_q']:
+                            h2 += 1
+    run.check(h1 == 1 and h2 == 1, pk.qualname, 'parameter headers: %d x [2, len8] in the standard form, %d x [2, len16] in the extended form' % (h1, h2), pk.loc(), 'type 2 (capabilities) with a 1-octet then a 2-octet length')
     # decoder: marker test twice against 0xFF, 2-byte length at [2:4], +4
     ext_len = folder.class_attr(CAPS, 'EXTENDED_LENGTH')
-    tests = [n for n in walk_no_nested(un.node) if isinstance(n, ast.If) and 'Capabilities.EXTENDED_LENGTH' in norm(n.test) and isinstance(n.test, ast.Compare) and isinstance(n.test.ops[0], ast.Eq)]
-    run.check(ext_len == 255 and len(tests) == 2, un.qualname, 'extended marker tested on option_len and option_type (EXTENDED_LENGTH=%s, %d tests)' % (ext_len, len(tests)), un.loc(), 'RFC 9072: both octets are 255')
-    txt = norm(un.node)
-    run.check("unpack('!H', data[2:4])" in txt and 'data[4:option_len + 4]' in txt, un.qualname, 'extended length read from data[2:4], parameters from data[4:]', un.loc(), 'reader offsets must mirror pack(!BBH)')
-    run.check('data[1:option_len + 1]' in txt, un.qualname, 'standard parameters from data[1:option_len+1]', un.loc(), 'reader offsets must mirror [len] + parameters')
+    ul = Loc(model, un)
+    dparam = un.node.args.args[0].arg if un.node.args.args else '?'
+
+    def marker_index(t: ast.AST) -> int | None:
+        """`<byte i of the buffer> == Capabilities.EXTENDED_LENGTH` -> i"""
+        if not (isinstance(t, ast.Compare) and len(t.ops) == 1 and isinstance(t.ops[0], ast.Eq) and norm(t.comparators[0]) == 'Capabilities.EXTENDED_LENGTH'):
+            return None
+        cands = [t.left] + (ul.values(t.left.id) if isinstance(t.left, ast.Name) else [])
+        for c in cands:
+            if isinstance(c, ast.Subscript) and dotted(c.value) == dparam and not isinstance(c.slice, ast.Slice):
+                i = folder.fold(c.slice, mod, un.cls)
+                if i in (0, 1):
+                    return i
+        return None
+
+    def deep_guards(node: ast.AST, depth: int = 2) -> list[tuple[ast.AST, bool]]:
+        out = []
+        for t, pol in flat_guards(un.node, node):
+            out.append((t, pol))
+            if isinstance(t, ast.Name) and pol and depth:
+                for v, _, st in ul.defs.get(t.id, []):
+                    if v is not None and folder.fold(v, mod, un.cls) is not False:
+                        out.append((v, True))
+                        out.extend(deep_guards(st, depth - 1))
+        return out
+
+    tests = {marker_index(n.test) for n in walk_no_nested(un.node) if isinstance(n, ast.If)} | {marker_index(v) for vs in ul.defs.values() for v, _, _ in vs if v is not None}
+    run.check(ext_len == 255 and {0, 1} <= tests, un.qualname, 'extended marker tested on both octets (EXTENDED_LENGTH=%s)' % ext_len, un.loc(), 'RFC 9072: both octets are 255')
+    # the extended branch re-reads the length from [2:4] and keeps [4:len+4]; the standard one keeps [1:len+1]
+    lens = [n for n in walk_no_nested(un.node) if isinstance(n, ast.Assign) and amatch("unpack('!H', V_d[2:4])[0]", n.value, {'V_d': dparam}) is not None and isinstance(n.targets[0], ast.Name)]
+    lv = lens[0].targets[0].id if lens else '?'
+    cut_x = [n for n, _ in afind('V_d = V_d[4:V_l + 4]', un.node, {'V_d': dparam, 'V_l': lv})]
+    cut_s = [n for n, _ in afind('V_d = V_d[1:V_l + 1]', un.node, {'V_d': dparam, 'V_l': lv})]
+    run.check(len(lens) == 1 and len(cut_x) == 1, un.qualname, 'extended length read from data[2:4], parameters from data[4:len+4]', un.loc(), 'reader offsets must mirror pack(!BBH)')
+    run.check(len(cut_s) >= 1, un.qualname, 'standard parameters from data[1:len+1]', un.loc(), 'reader offsets must mirror [len] + parameters')
     # nested helper widths
     ext_h = model.funcs.get(CAPS + '.unpack._extended_type_length')
     kv_h = model.funcs.get(CAPS + '.unpack._key_values')
     if ext_h is None or kv_h is None:
         run.cannot('decoder helper closures not found')
         return
-    te = norm(ext_h.node)
-    tk = norm(kv_h.node)
-    run.check("unpack('!H', data[1:3])" in te and 'ld + 3' in te and 'data[3:boundary]' in te and 'len(data) < boundary' in te, ext_h.qualname, 'extended TLV: type(1) len(2) value, bounds checked', ext_h.loc(), "must mirror pack('!BH', ...)")
-    run.check('data[1]' in tk and 'ld + 2' in tk and 'data[2:boundary]' in tk and 'len(data) < boundary' in tk, kv_h.qualname, 'standard TLV: type(1) len(1) value, bounds checked', kv_h.loc(), 'must mirror bytes([k, len])')
+
+    def tlv_layout(h: FuncInfo) -> tuple[list[str], bool]:
+        """(returned (key, value, rest) with the locals inlined and the buffer written $d, bounds test present)"""
+        hl = Loc(model, h)
+        d = h.node.args.args[1].arg if len(h.node.args.args) > 1 else '?'
+        sub = lambda e: re.sub(r'\b%s\b' % re.escape(d), '$d', hl.expand(e, depth=6))  # noqa: E731
+        rr = [r for r in walk_no_nested(h.node) if isinstance(r, ast.Return) and isinstance(r.value, ast.Tuple)]
+        shape = [sub(e) for e in rr[-1].value.elts] if rr else []
+        upper = shape[2][3:-2] if len(shape) == 3 and shape[2].startswith('$d[') and shape[2].endswith(':]') else None
+        bounded = False
+        for n in walk_no_nested(h.node):
+            if isinstance(n, ast.If) and upper is not None and sub(n.test) == 'len($d) < %s' % upper and any(isinstance(x, ast.Raise) for x in n.body):
+                bounded = True
+        return shape, bounded
+
+    se, be = tlv_layout(ext_h)
+    sk, bk = tlv_layout(kv_h)
+    run.check(se == ['$d[0]', "$d[3:unpack('!H', $d[1:3])[0] + 3]", "$d[unpack('!H', $d[1:3])[0] + 3:]"] and be, ext_h.qualname, 'extended TLV: type(1) len(2) value, bounds checked %s' % se, ext_h.loc(), "must mirror pack('!BH', ...)")
+    run.check(sk == ['$d[0]', '$d[2:$d[1] + 2]', '$d[$d[1] + 2:]'] and bk, kv_h.qualname, 'standard TLV: type(1) len(1) value, bounds checked %s' % sk, kv_h.loc(), 'must mirror bytes([k, len])')
     # capability TLVs keep the RFC 5492 layout code(1) len(1) value in BOTH forms: encoder and decoder
-    caps = [n for n in sorted((x for x in walk_no_nested(pk.node) if isinstance(x, ast.Assign)), key=lambda x: x.lineno) if dotted(n.targets[0]) == 'encoded']
-    run.check(len(caps) == 2 and all(norm(n.value) == 'bytes([k, len(capability)]) + capability' for n in caps), pk.qualname, 'capability TLV = [code, len] + value in both forms', pk.loc(), 'RFC 5492 4: capability length is one octet, also inside RFC 9072 extended parameters')
+    caps = [n for n, _ in afind('V_e = bytes([V_k, len(V_c)]) + V_c', pk.node)]
+    run.check(len(caps) == 2, pk.qualname, 'capability TLV = [code, len] + value in both forms', pk.loc(), 'RFC 5492 4: capability length is one octet, also inside RFC 9072 extended parameters')
     inner = None
     for n in walk_no_nested(un.node):
         if isinstance(n, ast.If) and 'Parameter.CAPABILITIES' in norm(n.test):
@@ -497,10 +552,14 @@ def _r5_codec(model: Model, run: Run, folder: Folder) -> None:
         calls = [c for c in walk_no_nested(inner) if isinstance(c, ast.Call) and isinstance(c.func, ast.Name) and c.args and isinstance(c.args[0], ast.Constant) and c.args[0].value == 'capability']
         ok_inner = len(calls) == 1 and calls[0].func.id == '_key_values'
     run.check(ok_inner, un.qualname, 'capabilities inside a parameter are read with the 1-octet-length decoder (_key_values)', un.loc(inner) if inner is not None else un.loc(), 'the parameter-level decoder (2-octet length in the RFC 9072 form) must not be reused for the capability TLVs, whose length stays one octet')
-    # decoder selection
-    sel = [n for n in walk_no_nested(un.node) if isinstance(n, ast.Assign) and dotted(n.targets[0]) == 'decoder']
-    names = [dotted(n.value) for n in sorted(sel, key=lambda s: s.lineno)]
-    run.check(names == ['_extended_type_length', '_key_values', '_key_values'], un.qualname, 'decoder per form: %s' % names, un.loc(), 'the 2-octet TLV decoder is used only in the extended form')
+    # decoder selection: the 2-octet TLV decoder only when both marker octets are 255
+    sel = [(n, dotted(n.value)) for n in walk_no_nested(un.node) if isinstance(n, ast.Assign) and isinstance(n.value, ast.Name) and n.value.id in ('_extended_type_length', '_key_values')]
+    okd = any(v == '_extended_type_length' for _, v in sel) and any(v == '_key_values' for _, v in sel)
+    for n, v in sel:
+        if v == '_extended_type_length':
+            marks = {marker_index(t) for t, pol in deep_guards(n) if pol}
+            okd = okd and {0, 1} <= marks
+    run.check(okd, un.qualname, 'decoder per form: %s' % [v for _, v in sel], un.loc(), 'the 2-octet TLV decoder is used only in the extended form (both marker octets 255)')
 
 
 FLAGS = {
